@@ -32,6 +32,17 @@ ASSUMPTIONS = ['scope is exactly the operation list of the statement (split, tok
                'file/BytesIO windows under lsb0 are not judged)']
 
 
+WIDTH_INTERPS = {
+    4: ['e2m1mxfp', 'uint', 'int', 'hex', 'bin'],
+    6: ['e3m2mxfp', 'e2m3mxfp', 'oct'],
+    8: ['p3binary', 'p4binary', 'e5m2mxfp', 'e4m3mxfp', 'e8m0mxfp', 'mxint', 'uint', 'int', 'bytes'],
+    16: ['bfloat', 'bfloatbe', 'bfloatle', 'bfloatne', 'float', 'floatbe', 'floatle', 'floatne', 'intbe', 'intle', 'intne', 'uintbe', 'uintle', 'uintne'],
+    32: ['float', 'floatle', 'floatne', 'intle', 'uintle', 'uintne'],
+    64: ['float', 'floatle', 'floatne', 'intle', 'uintne'],
+}
+NEEDS_LENGTH = {'uint', 'int', 'hex', 'bin', 'oct', 'float', 'floatbe', 'floatle', 'floatne', 'intbe', 'intle', 'intne', 'uintbe', 'uintle', 'uintne'}
+
+
 def gen_probe(rng, m, hint=None):
     L = len(m)
     kind = rng.choice(PROBES)
@@ -166,6 +177,22 @@ def probe(ctx, s, m, lsb0, kind, a, case):
                 ctx.ok((mode, 'interp', name), lsb0 and L > 0)
             else:
                 ctx.mismatch(f'C12|{mode}|interp|{name}|value', case, f'got {got!r:.100} expected {expv!r:.100}')
+        # every fixed-width interpretation of a window of the content: the value read with the option on is the value read with it off
+        # (what that value should be is C02's and C11's question)
+        fill = (m + '0110100110010110' * 4)
+        for width, names in WIDTH_INTERPS.items():
+            w = fill[:width] if L % 2 else fill[L // 2:L // 2 + width]
+            t = mk(type(s), w)
+            for name in names:
+                with util.options(lsb0=False):
+                    a0 = call(lambda: repr(getattr(t, name)))
+                with util.options(lsb0=True):
+                    a1 = call(lambda: repr(getattr(t, name)))
+                    a2 = call(lambda: repr(bitstring.Dtype(name, width if name in NEEDS_LENGTH else None).parse(t)))
+                if a0[0] == 'ok' and a1 == a0 and a2 == a0:
+                    ctx.ok(('interp-modes', name), True)
+                elif a0[0] == 'ok':
+                    ctx.mismatch(f'C12|lsb0|interp|{name}|differs-from-msb0', case, f'{w}: msb0 {a0[1]} lsb0 property {a1[1]!s:.60} Dtype.parse {a2[1]!s:.60}')
         ctx.op('interp')
     elif kind == 'eqhash':
         t = mk(Bits, m)
@@ -230,13 +257,35 @@ def order_case(ctx, case):
     fmt = ', '.join(n + (str(l) if l is not None else '') for n, l in toks)
     with util.options(lsb0=True):
         pv = [mk(Bits, v) if n == 'bits' else v for (n, _), v in zip(toks, vals)]
-        got = call(lambda: B(bitstring.pack(fmt, *pv)))
+        # the same items in every spelling pack accepts: positional, literal, keyword value, keyword length, bare keyword name
+        hows = case.get('how') or ['pos'] * len(toks)
+        ptoks, pos_vals, kw = [], [], {}
+        for i, ((n, l), v, e, how) in enumerate(zip(toks, pv, encs, hows)):
+            plain = n + (str(l) if l is not None else '')
+            if how == 'eq' and n in ('uint', 'int', 'hex', 'bin', 'oct'):
+                ptoks.append(f'{n}:{l}={v}')
+            elif how == 'kwval':
+                ptoks.append(f'{plain}=k{i}')
+                kw[f'k{i}'] = v
+            elif how == 'kwlen' and l is not None:
+                ptoks.append(f'{n}:n{i}')
+                kw[f'n{i}'] = l
+                pos_vals.append(v)
+            elif how == 'bare':
+                ptoks.append(f'w{i}')
+                kw[f'w{i}'] = mk(Bits, e)
+            else:
+                ptoks.append(plain)
+                pos_vals.append(v)
+        pfmt = ', '.join(ptoks)
+        got = call(lambda: B(bitstring.pack(pfmt, *pos_vals, **kw)))
         ctx.op('pack')
         exp = ''.join(reversed(encs))        # first token sits at the LSB end
+        spelling = '+'.join(sorted(set(hows)))
         if got == ('ok', exp):
-            ctx.ok(('lsb0', 'pack', len(toks)))
+            ctx.ok(('lsb0', 'pack', len(toks), spelling))
         else:
-            ctx.mismatch('C12|lsb0|pack|order|value', case, f'got {got!r:.120} expected {exp}')
+            ctx.mismatch(f'C12|lsb0|pack|order,spelling={spelling}|value', case, f'pack({pfmt!r}): got {got!r:.120} expected {exp}')
         whole = exp
         expvals = [K.decode(n, e) for (n, _), e in zip(toks, encs)]
         for cname in ('Bits', 'BitStream', 'ConstBitStream'):
@@ -282,7 +331,8 @@ def gen_order(ctx):
         if isinstance(v, float) and v != v:
             v = 1.5
         vals.append(v)
-    return {'tokens': toks, 'values': vals}
+    how = [rng.choice(['pos', 'pos', 'eq', 'kwval', 'kwlen', 'bare']) for _ in toks] if rng.random() < 0.6 else None
+    return {'tokens': toks, 'values': vals, 'how': how}
 
 
 DIRECTED = [
